@@ -1,7 +1,9 @@
 use crate::driver::Check;
 
+pub mod c03;
+pub mod c13;
 pub mod c15;
 
 pub fn all() -> Vec<&'static dyn Check> {
-    vec![&c15::C15]
+    vec![&c03::C03, &c13::C13, &c15::C15]
 }
